@@ -650,7 +650,85 @@ func cmdC07(seed uint64, tier, outdir string) {
 			xs = append(xs, input{"concat:" + d.name + "+" + d2.name, []byte(string(editWords(r, d.text, r.intn(5))) + "\n" + string(d2.text))})
 		}
 	}
+	// user corpus with nested documents (A; C = A + S; D) and an X that starts with an exact copy of A, then a
+	// copyright line, then damaged S and an edited D: several candidates of different confidence compete over the
+	// same lines, and Copyright pseudo matches sort differently alone and embedded
+	var nestedBC []*builtCorpus
+	for k := 0; k < 8+n/30; k++ {
+		vocab := synthVocab[:12+r.intn(len(synthVocab)-12)]
+		mk := func(m int) string {
+			var ws []string
+			for j := 0; j < m; j++ {
+				ws = append(ws, vocab[r.intn(len(vocab))])
+				if r.chance(1, 9) {
+					ws[len(ws)-1] += "\n"
+				}
+			}
+			return strings.Join(ws, " ")
+		}
+		a, sh, dd := mk(12+r.intn(20)), mk(25+r.intn(30)), mk(40+r.intn(40))
+		var nb *builtCorpus
+		var x string
+		if k%2 == 0 {
+			nb = buildCorpus(0.8, []corpusDoc{{"License", "Nest-A", "a.txt", []byte(a)}, {"License", "Nest-C", "c.txt", []byte(a + " " + sh)},
+				{"License", "Nest-D", "d.txt", []byte(dd)}})
+			x = a + "\nCopyright (c) 2020 Foo Bar\n" + string(editWords(r, []byte(sh), 1+r.intn(4))) + "\n" + string(editWords(r, []byte(dd), 1+r.intn(4)))
+		} else {
+			// B = A with e of its words changed, followed by t more words (e > t): in X = A, a notice line, the t
+			// words, a noisy D, B is a weaker candidate than the exact A (token-weighted) that spans A and the notice
+			// line; D is retained after both
+			distinct := func(prefix string, m int) []string {
+				var ws []string
+				for j := 0; j < m; j++ {
+					w := prefix
+					for v := j + 1; v > 0; v /= 26 {
+						w += string(rune('a' + v%26))
+					}
+					ws = append(ws, w)
+				}
+				return ws
+			}
+			lines := func(ws []string, per int) string {
+				var sb strings.Builder
+				for j, w := range ws {
+					sb.WriteString(w)
+					if (j+1)%per == 0 || j+1 == len(ws) {
+						sb.WriteString("\n")
+					} else {
+						sb.WriteString(" ")
+					}
+				}
+				return sb.String()
+			}
+			na, t := 50+r.intn(20), 4+r.intn(5)
+			e := t + 1
+			aw, tw, dw := distinct("za", na), distinct("zt", t), distinct("zd", 35+r.intn(15))
+			bw := append([]string{}, aw...)
+			for j := 0; j < e; j++ {
+				bw[3+j*(na-6)/e] = "zs" + string(rune('a'+j))
+			}
+			bw = append(bw, tw...)
+			nd := append([]string{}, dw...)
+			// D is damaged more than B (confidence between the threshold and B's), so that it is decided after B
+			nsub := len(dw)/10 + 1
+			for j := 0; j < nsub; j++ {
+				nd[2+j*(len(dw)-4)/nsub] = oovWords[j%len(oovWords)]
+			}
+			nb = buildCorpus(0.8, []corpusDoc{{"License", "Nest-A", "a.txt", []byte(lines(aw, 10))}, {"License", "Nest-B", "b.txt", []byte(lines(bw, 10))},
+				{"License", "Nest-D", "d.txt", []byte(lines(dw, 10))}})
+			x = lines(aw, 10) + "Copyright 2020 Foo Bar\n" + lines(tw, 10) + lines(nd, 10)
+		}
+		xs = append(xs, input{fmt.Sprintf("nested+notice#%d", len(nestedBC)), []byte(x)})
+		nestedBC = append(nestedBC, nb)
+	}
+	bcFull := bc
 	for _, x := range xs {
+		bc = bcFull
+		if strings.HasPrefix(x.name, "nested+notice#") {
+			var idx int
+			fmt.Sscanf(x.name, "nested+notice#%d", &idx)
+			bc = nestedBC[idx]
+		}
 		body := strings.TrimRight(string(x.data), " \t\r\n")
 		if body == "" || endsWithDash(body) {
 			continue
@@ -701,6 +779,9 @@ func cmdC07(seed uint64, tier, outdir string) {
 				}
 				sort.Strings(out)
 				return out
+			}
+			if os.Getenv("VERIF_DEBUG") != "" && strings.HasPrefix(x.name, "nested+notice") {
+				fmt.Fprintf(os.Stderr, "%s pre=%d alone=%s embedded=%s\n", x.name, npre, fmtResults(ref), fmtResults(got))
 			}
 			a, b := canon(ref.Matches, npre, lpre), canon(got.Matches, 0, 0)
 			if strings.Join(a, ";") != strings.Join(b, ";") {
